@@ -44,6 +44,22 @@ def nan_field(subset):
     return all(t in ("PartialEq", "PartialOrd") for t in subset)
 
 
+def obs_block(vals, subset):
+    obs = [f"let vals: ::std::vec::Vec<Ty> = vec![{', '.join(vals)}];"]
+    if "PartialEq" in subset:
+        obs.append('let mut s = ::std::string::String::new(); for a in &vals { for b in &vals { s.push(::dxrt::bool_c(a == b)); } } ::dxrt::ev!("mat", "op" => "eq", "m" => s);')
+    if "PartialOrd" in subset:
+        obs.append('let mut s = ::std::string::String::new(); for a in &vals { for b in &vals { s.push(::dxrt::pord_c(a.partial_cmp(b))); } } ::dxrt::ev!("mat", "op" => "pcmp", "m" => s);')
+    if "Ord" in subset:
+        obs.append('let mut s = ::std::string::String::new(); for a in &vals { for b in &vals { s.push(::dxrt::ord_c(::core::cmp::Ord::cmp(a, b))); } } ::dxrt::ev!("mat", "op" => "cmp", "m" => s);')
+        obs.append('let mut m = ::std::collections::BTreeMap::new(); for (i, a) in vals.iter().enumerate() { m.insert(a, i); } ::dxrt::ev!("btree", "len" => m.len());')
+    if "Hash" in subset:
+        obs.append('let mut l = ::std::vec::Vec::new(); for a in &vals { l.push(::dxrt::RecHasher::of(a)); } ::dxrt::ev!("feeds", "l" => l);')
+        if "Eq" in subset:
+            obs.append('let mut m = ::std::collections::HashMap::new(); for (i, a) in vals.iter().enumerate() { m.insert(a, i); } ::dxrt::ev!("hashmap", "len" => m.len());')
+    return obs
+
+
 def code_for(combo, subset, placement, first, entry):
     item, tl = item_text(combo, subset, placement, first, entry)
     parts = [tl]
@@ -66,19 +82,30 @@ def code_for(combo, subset, placement, first, entry):
         vals.append("Ty::V1")
     elif placement in ("enumd", "enumm"):
         vals += ["Ty::V1", f"Ty::V2({V}(0))", f"Ty::V2({V}(1))", "Ty::V3"]
-    obs = [f"let vals: ::std::vec::Vec<Ty> = vec![{', '.join(vals)}];"]
-    if "PartialEq" in subset:
-        obs.append('let mut s = ::std::string::String::new(); for a in &vals { for b in &vals { s.push(::dxrt::bool_c(a == b)); } } ::dxrt::ev!("mat", "op" => "eq", "m" => s);')
-    if "PartialOrd" in subset:
-        obs.append('let mut s = ::std::string::String::new(); for a in &vals { for b in &vals { s.push(::dxrt::pord_c(a.partial_cmp(b))); } } ::dxrt::ev!("mat", "op" => "pcmp", "m" => s);')
-    if "Ord" in subset:
-        obs.append('let mut s = ::std::string::String::new(); for a in &vals { for b in &vals { s.push(::dxrt::ord_c(::core::cmp::Ord::cmp(a, b))); } } ::dxrt::ev!("mat", "op" => "cmp", "m" => s);')
-        obs.append('let mut m = ::std::collections::BTreeMap::new(); for (i, a) in vals.iter().enumerate() { m.insert(a, i); } ::dxrt::ev!("btree", "len" => m.len());')
-    if "Hash" in subset:
-        obs.append('let mut l = ::std::vec::Vec::new(); for a in &vals { l.push(::dxrt::RecHasher::of(a)); } ::dxrt::ev!("feeds", "l" => l);')
-        if "Eq" in subset:
-            obs.append('let mut m = ::std::collections::HashMap::new(); for (i, a) in vals.iter().enumerate() { m.insert(a, i); } ::dxrt::ev!("hashmap", "len" => m.len());')
+    obs = obs_block(vals, subset)
     return head + item + "\npub fn run() {\n" + "\n".join(obs) + "\n}"
+
+
+LAYOUT_OPTS = [("-",) * 5, ("ignore", "-", "-", "-", "-"), ("reverse", "-", "-", "-", "-"), ("key", "-", "-", "-", "-"), ("reverse+key", "-", "-", "-", "-")]
+
+
+def layout_code(layout, subset, kind, entry):
+    """Several attributed fields at once (the matrix above has one attributed field next to a plain one): every field of a
+    3-field struct / variant carries one of: nothing, ord(ignore), ord(reverse), ord(key), ord(key, reverse)."""
+    fs = []
+    for i, combo in enumerate(layout):
+        attrs = " ".join(M.render_attrs(combo, p_c05.KEY, p_c05.BY))
+        fs.append(f"{attrs} f{i}: {V}".strip())
+    body = "{ " + ", ".join(fs) + " }"
+    item = f"pub struct Ty {body}" if kind == "struct" else f"pub enum Ty {{ V1, V0 {body}, V2({V}) }}"
+    tl = ", ".join(subset)
+    head = f"#[::derive_ex::derive_ex({tl})]\n" if entry == "attr" else f"#[derive(::derive_ex::Ex)]\n#[derive_ex({tl})]\n"
+    ctor = "Ty" if kind == "struct" else "Ty::V0"
+    doms = [F0[:3], F1[:2], F0[1:4]]
+    vals = [f"{ctor} {{ f0: {a}, f1: {b}, f2: {c} }}" for a in doms[0] for b in doms[1] for c in doms[2]]
+    if kind == "enum":
+        vals += ["Ty::V1", f"Ty::V2({V}(1))"]
+    return head + item + "\npub fn run() {\n" + "\n".join(obs_block(vals, subset)) + "\n}"
 
 
 REVC = {"L": "G", "G": "L", "E": "E"}
@@ -232,6 +259,34 @@ def run(rep, tier, rng):
             rep.inconcl(f"finding did not reproduce in isolation: {sig}")
     for c in cases[:2] + cases[-1:]:
         rep.sample({"source": c.code[:500], "status": c.status})
+    # ---- several attributed fields at once: every layout of {plain, ignore, reverse, key, key+reverse} over three fields
+    import itertools
+    lcases = []
+    FULL = ["Ord", "PartialOrd", "Eq", "PartialEq", "Hash"]
+    for k, layout in enumerate(itertools.product(LAYOUT_OPTS, repeat=3)):
+        if all(o == LAYOUT_OPTS[0] for o in layout):
+            continue
+        sub = FULL if k % 3 else FULL[:4]
+        kind = "struct" if k % 2 else "enum"
+        lcases.append(C.Case(f"l{k}", layout_code(layout, sub, kind, "attr" if k % 4 < 2 else "derive"), {"layout": layout, "sub": sub, "kind": kind}))
+    _, lnotes = C.run_cases(lcases, "c02l", header=HEADER, batch_size=40)
+    for nmsg in lnotes:
+        rep.inconcl(nmsg)
+    for c in lcases:
+        if c.status == "inconclusive":
+            continue
+        lay = ",".join(o[0] for o in c.meta["layout"])
+        if c.status == "compile_fail":
+            d = next(x for x in c.diags if x["level"] == "error")
+            rep.violation(f"C02|layout-does-not-compile|{lay}", f"three attributed fields [{lay}]: {(d['message'] or '')[:160]}\n{c.code[:400]}", {"code": c.code, "subset": c.meta["sub"]})
+            continue
+        rep.count("multi_field_layouts_run")
+        bad = check_laws(c.events, c.meta["sub"])
+        nobs = sum(len(e["m"]) for e in c.events if e.get("k") == "mat")
+        rep.evaluations += nobs
+        for law, w in bad[:1]:
+            rep.violation(f"C02|layout|{law}|{lay}|{c.meta['kind']}", f"three attributed fields [{lay}] ({c.meta['kind']}, derived {'+'.join(c.meta['sub'])}): law `{law}` fails at {w}\n{c.code[:400]}",
+                          {"code": c.code, "subset": c.meta["sub"]})
     # canary: the law checker must flag a log in which `==` and `cmp` disagree
     good = next((c for c in cases if c.status == "ok" and "Ord" in c.meta["pt"][1]), None)
     if good:
@@ -245,7 +300,7 @@ def run(rep, tier, rng):
                 "the real proc-macro and run (all single-attribute points plus a seeded sample in quick, all in thorough); "
                 "laws checked on all pairs/triples of 18-19 values: eq<=>partial_cmp==Equal<=>cmp==Equal, partial_cmp==Some(cmp), "
                 "eq=>same hash feed, eq equivalence, cmp antisymmetric/transitive/total, BTreeMap/HashMap key count == number "
-                "of ==-classes. All key/by functions express the one key v/2. distinct_nontrivial = distinct (combination, "
+                "of ==-classes; plus all 124 layouts of {plain, ignore, reverse, key, key+reverse} over three fields of one struct / variant. All key/by functions express the one key v/2. distinct_nontrivial = distinct (combination, "
                 "subset) points run that carry at least one attribute.")
     rep.assumptions = ["types the macro accepts but rustc rejects are counted and left to C20"]
 
@@ -256,6 +311,10 @@ def replay(rep, path):
     if c.status == "compile_fail":
         print(f"VIOLATION property=C02 replay={path}\n  accepted by the expander, refused by rustc")
         return 1
+    if "subset" in j:
+        bad = c.status == "ok" and check_laws(c.events, j["subset"])
+        print(f"VIOLATION property=C02 replay={path}" if bad else "replay: no violation")
+        return 1 if bad else 0
     if c.status == "ok" and check_laws(c.events, j["pt"][1]):
         print(f"VIOLATION property=C02 replay={path}\n  {check_laws(c.events, j['pt'][1])}")
         return 1
